@@ -9,7 +9,7 @@ from symtrace.r1cs import Sys
 from symtrace.concrete import Kit
 from . import catalogue as CAT
 from . import common as C
-from .catjob import Job
+from .catjob import lookup, Job
 from .c02 import adversarial_assignment
 
 PID = "C03"
@@ -29,8 +29,8 @@ def jobs(tier):
 
 
 def run_job(env, spec):
-    entry = CAT.by_name(spec["cfg"]["n"], "thorough")[spec["entry"]]
-    job = Job(PID, env, spec, entry)
+    entry = lookup(spec)
+    job = Job(spec.get("pid", PID), env, spec, entry, spec.get("catalogue", "checks.catalogue"))
     job.cfg["want_ref"] = False
     kit = Kit(env, None, job.cfg["n"], 2)
     # run E: errors on
@@ -59,10 +59,12 @@ def run_job(env, spec):
                             dict(kind="c03_accepted_unsat", inputs=inputs))
             elif ob["status"] == "unknown":
                 job.inconclusive("path %d constraint %d: unknown" % (pi, ob["idx"]))
+    if spec.get("no_circuit"):
+        return job.done()          # plain (non-secret) values: only the run-time side exists
     # constraint structure for arbitrary operands: ignore_errors run (or an accepted path for constructors that always raise)
     struct = None
     if "decl" not in entry.tags:
-        job2 = Job(PID, env, spec, entry)
+        job2 = Job(spec.get("pid", PID), env, spec, entry, spec.get("catalogue", "checks.catalogue"))
         job2.cfg.update(want_ref=False, ignore=True)
         tI = [t for t in job2.explore() if t.path.ok]
         job.res["paths"] += job2.res["paths"]
